@@ -5,6 +5,7 @@ import (
 	"fmt"
 	"io"
 	"net"
+	"os"
 	"sort"
 	"sync"
 	"syscall"
@@ -181,6 +182,8 @@ type End struct {
 	accepted  bool
 	firstRead bool
 	ReadCalls int
+	// read and write deadlines (simulated clock); zero = none
+	rdl, wdl time.Time
 	// FailedWrites counts the Write calls on this end that wrote nothing because the peer was gone or the end closed.
 	FailedWrites int
 	// ParkEveryRead makes every Read a park point (default: only when nothing is readable).
@@ -246,13 +249,14 @@ func (e *End) Read(p []byte) (int, error) {
 	e.ReadCalls++
 	need := !e.firstRead || e.ParkEveryRead || (len(d.readable) == 0 && !d.finDeliv && !d.rst && !e.closed)
 	e.firstRead = true
+	rdl := e.rdl
 	n.mu.Unlock()
-	if need && n.S.Serial {
-		ab := n.S.Park(e.taskName(), "read "+e.key(), e, func() bool {
+	if need && n.S.Serial && !expired(rdl) {
+		ab := n.S.ParkT(e.taskName(), "read "+e.key(), e, func() bool {
 			n.mu.Lock()
 			defer n.mu.Unlock()
-			return len(d.readable) > 0 || d.finDeliv || d.rst || e.closed
-		})
+			return len(d.readable) > 0 || d.finDeliv || d.rst || e.closed || expired(e.rdl)
+		}, rdl)
 		if ab {
 			return 0, opErr("read", ErrAborted)
 		}
@@ -262,6 +266,11 @@ func (e *End) Read(p []byte) (int, error) {
 	if e.closed {
 		n.S.Logf(e.key(), "read -> closed")
 		return 0, opErr("read", net.ErrClosed)
+	}
+	if expired(e.rdl) {
+		n.S.Logf(e.key(), "read -> deadline exceeded")
+		n.S.Count("read_deadline_exceeded")
+		return 0, opErr("read", os.ErrDeadlineExceeded)
 	}
 	// bytes that were delivered before a reset stay readable (Linux); Reset(false) drops them
 	if d.rst && len(d.readable) == 0 {
@@ -311,6 +320,15 @@ func (e *End) Write(p []byte) (int, error) {
 			n.S.Logf(e.key(), "write -> closed")
 			return total, opErr("write", net.ErrClosed)
 		}
+		if expired(e.wdl) {
+			if total == 0 {
+				e.FailedWrites++
+			}
+			n.mu.Unlock()
+			n.S.Logf(e.key(), "write -> deadline exceeded after %d of %d bytes", total, len(p))
+			n.S.Count("write_deadline_exceeded")
+			return total, opErr("write", os.ErrDeadlineExceeded)
+		}
 		if d.readerGone || d.finQueued {
 			if total == 0 {
 				e.FailedWrites++
@@ -343,13 +361,14 @@ func (e *End) Write(p []byte) (int, error) {
 			n.S.Logf(e.key(), "write %d", len(p))
 			return total, nil
 		}
+		wdl := e.wdl
 		n.mu.Unlock()
 		n.S.Count("write_blocked")
-		ab := n.S.Park(e.taskName(), "write "+e.key(), e, func() bool {
+		ab := n.S.ParkT(e.taskName(), "write "+e.key(), e, func() bool {
 			n.mu.Lock()
 			defer n.mu.Unlock()
-			return e.closed || d.readerGone || d.Window < 0 || d.Window-len(d.inflight)-len(d.readable) > 0
-		})
+			return e.closed || d.readerGone || d.Window < 0 || d.Window-len(d.inflight)-len(d.readable) > 0 || expired(e.wdl)
+		}, wdl)
 		if ab {
 			return total, opErr("write", ErrAborted)
 		}
@@ -443,9 +462,31 @@ func (e *End) RemoteAddr() net.Addr {
 	}
 	return e.clientAddr()
 }
-func (e *End) SetDeadline(t time.Time) error      { return nil }
-func (e *End) SetReadDeadline(t time.Time) error  { return nil }
-func (e *End) SetWriteDeadline(t time.Time) error { return nil }
+
+// Deadlines are honoured against the simulated clock: an expired deadline fails the operation at once, a parked
+// Read/Write wakes when the clock reaches it (a Write that timed out may have delivered a prefix).
+func (e *End) SetDeadline(t time.Time) error {
+	e.P.N.mu.Lock()
+	e.rdl, e.wdl = t, t
+	e.P.N.mu.Unlock()
+	return nil
+}
+
+func (e *End) SetReadDeadline(t time.Time) error {
+	e.P.N.mu.Lock()
+	e.rdl = t
+	e.P.N.mu.Unlock()
+	return nil
+}
+
+func (e *End) SetWriteDeadline(t time.Time) error {
+	e.P.N.mu.Lock()
+	e.wdl = t
+	e.P.N.mu.Unlock()
+	return nil
+}
+
+func expired(t time.Time) bool { return !t.IsZero() && !time.Now().Before(t) }
 
 // --- scheduler-side operations on a pipe (called by checks, never by repo code) ---
 
@@ -506,6 +547,13 @@ func (p *Pipe) FinPending(dir int) bool {
 	defer p.N.mu.Unlock()
 	d := p.dir[dir]
 	return d.finQueued && !d.finDeliv
+}
+
+// Peek returns a copy of the delivered but unread bytes of a direction without consuming them.
+func (p *Pipe) Peek(dir int) []byte {
+	p.N.mu.Lock()
+	defer p.N.mu.Unlock()
+	return append([]byte{}, p.dir[dir].readable...)
 }
 
 // Take removes and returns everything readable in a direction (scripted clients
